@@ -69,6 +69,10 @@ class Loader:
         return sorted(out)
 
 
+class _NotSymbolic(Exception):
+    pass
+
+
 class Interp:
     def __init__(self, loader: Loader, path: PathState, hooks=None):
         self.loader = loader
@@ -710,9 +714,71 @@ class Interp:
         rec(0)
 
     def ex_ListComp(self, node, frame):
+        sym = self._symbolic_listcomp(node, frame)
+        if sym is not None:
+            return sym
         out = []
         self._comp(node, frame, lambda cf: out.append(self.eval(node.elt, cf)))
         return out
+
+    def _symbolic_listcomp(self, node, frame):
+        """[elt for x in L ... for _ in range(n)] with symbolic n and an unused counter: every element produced by
+        the outer generators is repeated n times in place (a `Rep` piece of a generalised list); outer generators over
+        generalised lists with symbolic segments are followed piecewise when the element is the loop variable itself"""
+        if not isinstance(node, ast.ListComp) or not node.generators:
+            return None
+        last = node.generators[-1]
+        if last.ifs or not isinstance(last.target, ast.Name) or getattr(last, "is_async", 0):
+            return None
+        if not (isinstance(last.iter, ast.Call) and isinstance(last.iter.func, ast.Name) and last.iter.func.id == "range" and len(last.iter.args) == 1):
+            return None
+        used = {n.id for n in ast.walk(node.elt) if isinstance(n, ast.Name)}
+        for g in node.generators[:-1]:
+            for c in g.ifs:
+                used |= {n.id for n in ast.walk(c) if isinstance(n, ast.Name)}
+        if last.target.id in used:
+            return None
+        from .models.glist import GList, Rep, Seg
+        cf = Frame(frame.func, frame.module, closure=frame)
+        cf.is_comp = True
+        pieces = []
+        outer = node.generators[:-1]
+
+        def rec(i):
+            if i == len(outer):
+                n = self.eval(last.iter.args[0], cf)
+                if not isinstance(n, Sym):
+                    raise _NotSymbolic()
+                pieces.append(Rep([self.eval(node.elt, cf)], n))
+                return
+            g = outer[i]
+            it = self.eval(g.iter, cf if i else frame)
+            if isinstance(it, GList) and any(isinstance(p, (Seg, Rep)) for p in it.pieces):
+                # identity over a generalised list: only `[x for x in L for _ in range(n)]` (elt is the loop variable, no filter)
+                if not (i == len(outer) - 1 and not g.ifs and isinstance(g.target, ast.Name) and isinstance(node.elt, ast.Name) and node.elt.id == g.target.id):
+                    raise Unsupported("comprehension over a list with symbolic segments")
+                for p_ in it.pieces:
+                    if isinstance(p_, (Seg, Rep)):
+                        self.assign(g.target, None, cf)
+                        n = self.eval(last.iter.args[0], cf)
+                        ln = GList([p_]).py_len(self)
+                        pieces.append(Seg(f"each element of {p_!r} repeated {n!r} times in place", ops.binop(self, "*", ln, n)))
+                    else:
+                        self.assign(g.target, p_, cf)
+                        n = self.eval(last.iter.args[0], cf)
+                        if not isinstance(n, Sym):
+                            raise _NotSymbolic()
+                        pieces.append(Rep([p_], n))
+                return
+            for v in self.iterate(it):
+                self.assign(g.target, v, cf)
+                if all(self.truth(self.eval(c, cf)) for c in g.ifs):
+                    rec(i + 1)
+        try:
+            rec(0)
+        except _NotSymbolic:
+            return None
+        return GList(pieces)
 
     def ex_GeneratorExp(self, node, frame):
         return self.ex_ListComp(node, frame)
